@@ -262,6 +262,43 @@ def array_constant_case(impl, variant):
     return None
 
 
+def scaled_values_case(impl, k):
+    """parameters of very small and very large magnitude in templates whose arguments only SCALE the parameter (-{r}, 2*{s}, {t}/4,
+    bare {r}): the matched values reproduce every program argument to a RELATIVE 1e-9, in every order that keeps the order on each
+    mode (no additive constant is involved, so nothing is ill conditioned)"""
+    import itertools
+
+    from blackbird.utils import match_template
+    rng = random.Random(1000 + k)
+    tpl = "name prog\nversion 1.0\nRgate({r}) | 2\nDgate(-{r}, 0.45) | 1\nSgate(2 * {s}, {phi}) | 0\nBSgate({t} / 4, 0.2) | [0, 1]\nKgate(3 * {u}) | 3\n"
+    t = impl.loads(tpl)
+    mag = [1e-7, 1e-10, 1e-5, 1e-13, 1e9, 1e-4, 1e-20][k % 7]
+    vals = {p: rng.choice([1, -1]) * float("%.13e" % (rng.uniform(1.1, 9.9) * mag)) for p in ["r", "s", "t", "u"]}
+    vals["phi"] = 0.25
+    inst = t(**vals)
+    n = len(inst.operations)
+    orders = [o for o in itertools.permutations(range(n)) if all(not (set(inst.operations[o[a]]["modes"]) & set(inst.operations[o[b]]["modes"])) or o[a] < o[b]
+                                                             for a in range(n) for b in range(a + 1, n))]
+    rng.shuffle(orders)
+    import copy
+    for order in orders[:6]:
+        prog = copy.deepcopy(inst)
+        prog._operations = [prog._operations[i] for i in order]
+        try:
+            res = match_template(t, prog)
+        except Exception as e:  # noqa: BLE001
+            return "matching an instantiation with values of magnitude %g (order %s) raises %s: %s" % (mag, list(order), type(e).__name__, str(e)[:100])
+        try:
+            back = t(**{p: res.get(p, vals[p]) for p in vals})
+        except Exception as e:  # noqa: BLE001
+            return "re-instantiating with the matched values fails: %s" % e
+        for a, b in zip(back.operations, inst.operations):
+            for x, y in zip(a.get("args", []), b.get("args", [])):
+                if abs(float(x) - float(y)) > 1e-9 * abs(float(y)):
+                    return "matched values %r do not reproduce the program's argument %r of %s (got %r; order %s)" % (dict(res), float(y), b["op"], float(x), list(order))
+    return None
+
+
 def run(tier, seed):
     res = Result(PROP, tier, seed)
     rng = random.Random(seed)
@@ -288,6 +325,16 @@ def run(tier, seed):
                 break
         if len(res.violations) >= 5:
             break
+    for k in range(7 if quick else 70):
+        try:
+            msg = scaled_values_case(impl, k)
+        except Exception as e:  # noqa: BLE001
+            msg = "harness error in scaled-values case %d: %s: %s" % (k, type(e).__name__, str(e)[:100])
+        res.case("scaled-values-%d" % k, True, None)
+        res.count("scaled-values")
+        if msg:
+            ok = False
+            res.violate(msg, {"check": "scaled-values", "k": k})
     for variant in range(3):
         try:
             msg = array_constant_case(impl, variant)
@@ -310,6 +357,10 @@ def replay(rep):
     import impl
     from blackbird.utils import TemplateError, match_template
     inp = rep["input"]
+    if inp.get("check") == "scaled-values":
+        msg = scaled_values_case(impl, inp["k"])
+        print(msg)
+        return 1 if msg else 0
     if inp.get("check") == "array-constant":
         msg = array_constant_case(impl, inp["variant"])
         print(msg)
